@@ -1,11 +1,26 @@
 import NeumannModel.Common.Proto
 import NeumannModel.Vec.Model
+import NeumannModel.Vec.HnswModel
 /- Line-protocol driver for the vector-search model (C06).  Stateful: one engine per process,
    `reset` starts a fresh one.  Vectors are comma separated integers, `-` = empty. -/
 open Neumann Neumann.Proto Neumann.Vec
 
+/-- the HNSW index of the `h*` commands: the graph, its configuration, and the distances between
+    stored vectors as the harness measured them on the real index (row `i` = node `i` to nodes
+    `0..i-1`; the real distance functions are symmetric bit for bit on dense vectors) -/
+structure HState where
+  cfg : Hnsw.Cfg
+  g : Hnsw.Graph
+  rows : List (List Nat)
+
+def HState.init : HState := ⟨⟨16, 32, 200⟩, Hnsw.Graph.empty, []⟩
+
+def HState.pd (h : HState) (a b : Nat) : Nat :=
+  if a = b then 0 else ((h.rows.getD (max a b) []).getD (min a b) 0)
+
 structure DState where
   st : State
+  h : HState := HState.init
 
 def showErr : Err → String
   | .emptyVector => "empty_vector" | .invalidTopK => "invalid_top_k"
@@ -103,9 +118,33 @@ def vecStep (d : DState) (line : String) : DState × String :=
   let bad := (d, "bad-op")
   let doOp (op : Op) : DState × String :=
     let (st', r) := step d.st op
-    ({ st := st' }, showResp r)
+    ({ d with st := st' }, showResp r)
   match words line with
-  | ["reset"] => ({ st := State.init }, "ok")
+  | ["reset"] => ({ d with st := State.init }, "ok")
+  -- HNSWIndex::with_config(HNSWConfig { m, m0, ef_construction, .. })
+  | ["hnew", m, m0, efc] => match m.toNat?, m0.toNat?, efc.toNat? with
+      | some m, some m0, some efc => ({ d with h := ⟨⟨m, m0, efc⟩, Hnsw.Graph.empty, []⟩ }, "ok")
+      | _, _, _ => bad
+  -- insert: the level random_level() drew, and the distances to the nodes already there
+  | ["hins", lvl, ds] => match lvl.toNat?, parseNats ds with
+      | some lvl, some ds =>
+        if ds.length ≠ d.h.g.size then bad
+        else
+          let h1 : HState := { d.h with rows := d.h.rows ++ [ds] }
+          let g' := Hnsw.insert h1.cfg h1.pd h1.g lvl
+          ({ d with h := { h1 with g := g' } },
+            s!"ok {g'.size - 1} entry={(g'.entry.map toString).getD "-"} max={g'.maxLayer}")
+      | _, _ => bad
+  -- search_with_ef(query, k, ef): the distances from the query to every node
+  | ["hsearch", k, ef, ds] => match k.toNat?, ef.toNat?, parseNats ds with
+      | some k, some ef, some ds =>
+        if ds.length ≠ d.h.g.size then bad
+        else
+          let r := Hnsw.searchEf d.h.g (fun i => ds.getD i 0) k ef
+          (d, "ok " ++ (if r.isEmpty then "-" else ",".intercalate (r.map fun x => s!"{x.1}:{x.2}")))
+      | _, _, _ => bad
+  | ["hdump"] =>
+      (d, "ok " ++ " | ".intercalate (d.h.g.nodes.map fun ls => ";".intercalate (ls.map showNats)))
   | ["store", k, v] => match parseInts v with
       | some v => doOp (.store k v) | none => bad
   | ["storem", k, v, md] => match parseInts v, parseMeta md with
